@@ -42,7 +42,7 @@ use tosub::SubsystemHandle;
 use tracing::{Level, debug, error, info, span};
 use worterbuch_common::{
     KeySegment, PStateEvent, SYSTEM_TOPIC_CLIENTS, SYSTEM_TOPIC_GRAVE_GOODS,
-    SYSTEM_TOPIC_LAST_WILL, SYSTEM_TOPIC_MODE, SYSTEM_TOPIC_ROOT, ValueEntry, topic, while_select,
+    SYSTEM_TOPIC_LAST_WILL, SYSTEM_TOPIC_MODE, SYSTEM_TOPIC_ROOT, topic, while_select,
     write_line_and_flush,
 };
 
@@ -233,21 +233,14 @@ async fn try_forward_api_call(
     match recv {
         Some(WbFunction::Import(json, tx)) => {
             let (tx_int, rx_int) = oneshot::channel();
-            process_api_call(worterbuch, WbFunction::Import(json, tx_int)).await;
+            process_api_call(worterbuch, WbFunction::Import(json.clone(), tx_int)).await;
             let imported_values = rx_int.await??;
 
-            for (key, (value, changed)) in &imported_values {
-                if *changed {
-                    let cmd = match value.to_owned() {
-                        ValueEntry::Cas(value, version) => {
-                            ClientWriteCommand::CSet(key.to_owned(), value, version, true)
-                        }
-                        ValueEntry::Plain(value) => {
-                            ClientWriteCommand::Set(key.to_owned(), value, true)
-                        }
-                    };
-                    forward_to_followers(cmd, client_write_txs, dead).await;
-                }
+            // followers merge the same document into the same state: entries arrive with the
+            // kind and CAS version they have on the leader (a forced cset would renumber them)
+            if imported_values.iter().any(|(_, (_, changed))| *changed) {
+                forward_to_followers(ClientWriteCommand::Import(json), client_write_txs, dead)
+                    .await;
             }
             tx.send(Ok(imported_values)).ok();
         }
